@@ -397,6 +397,9 @@ def ops_proto(r, n):
             ops.append("proto_fn %s %s ; - ; %s ; %s" % (q, st(s0), ans(r.choice([0, 0, -1, 5]), 0, "", s0), ans(0, 0, "", sock(state=8))))
         sid = r.choice([s0[6], s0[6] ^ 1, r.randrange(65536)])
         ops.append("proto_fn cache_response %s ; %02x03%04x00000008 ; %s ; %s" % (st(s0), s0[10], sid, ans(0, 0, "", s0), ans(0, 0, "", sock(state=7))))
+        # a stored session id of 0 is a session id like any other (not "no session yet")
+        z0 = sock(sid=0, rq=r.choice([0, 0, 1]))
+        ops.append("proto_fn cache_response %s ; %02x03%04x00000008 ; %s ; %s" % (st(z0), z0[10], r.choice([0, 1, 77, r.randrange(65536)]), ans(0, 0, "", z0), ans(0, 0, "", sock(state=7))))
         ln = r.choice([16, 16, 20, 40])
         enc = r.choice([0, 0, ln - 16, 4, U32 - 1, ln])
         body = bytearray(max(0, ln - 12))
